@@ -196,7 +196,7 @@ theorem C07_gen_wiring_calc_samplewise (c : Cfg) (hk : c.kind = .samplewise) (b 
           kwVal, kwAverage, dataEnv, avg_roundtrip, List.lookup, Option.bind]
 
 /-- `TopKConfusionMatrixAggFn._calculate_confusion_matrix` as translated = `batchCM` on the input types its
-constructor admits (`constructTopK` refuses the others) -/
+constructor accepts (`constructTopK` refuses the others) -/
 theorem C07_gen_wiring_calc_topk (c : Cfg) (hk : c.kind = .topk)
     (hi : c.input = some .multiclass ∨ c.input = some .multioutput) (b : Batch) :
     evalCalc c b calcTopKConfusionMatrixAggFn = batchCM c b := by
@@ -252,5 +252,16 @@ theorem C07_gen_wiring_get_result_order (sqrt : Rat → Rat) (c : Cfg) (s : CMAr
     simp only [he, bind, Except.bind, packResult, hs] at h
     refine ⟨kv, ?_, entries_keys _ _ _ he⟩
     simpa using h.symm
+
+/-- `SamplewiseClassification.result` lists the configured metrics in their order: the translated comprehension
+(one `self._state[metric].result()` per element of `self._metrics`), then the single-name selection -/
+theorem C07_gen_wiring_samplewise_result (c : Cfg) (st : SwState) :
+    swResult c st
+      = (samplewiseResultEntries (fun m => (pure (RVal.val (.s (some (meanStateResult (st.get m))))) : Except ErrKind RVal))
+          c.metrics >>= packResult c) ∧
+    samplewiseResultShape = ("_metrics", "self._state[metric]", "result", [], "metrics") := by
+  refine ⟨?_, by decide +kernel⟩
+  rw [entries_pure]
+  rfl
 
 end MlModel.C07
